@@ -43,12 +43,36 @@ type c05F[P curves.Point[P, F, S], F algebra.FiniteFieldElement[F], S algebra.Pr
 	family string
 	scheme *feldman.Scheme[P, S]
 	M      *c05Msp[S]
+	// object-reuse mode (c05_reuse.go): when obj is set, every emitter below hands THIS already used
+	// object to the library instead of building a fresh vector from the points of the line, and
+	// tags the op with "@reuse"; the line still carries the object's current value.
+	obj *feldman.VerificationVector[P, S]
+	// shObj: likewise an already used share object handed to Verify instead of a fresh one
+	shObj *kw.Share[S]
 }
 
 func (x *c05F[P, F, S]) pre(M *c05Msp[S]) string { return x.curve + " " + M.ctx() }
 
+// tag is appended to the op name of lines produced on reused objects.
+func (x *c05F[P, F, S]) tag() string {
+	if x.obj != nil || x.shObj != nil {
+		return "@reuse"
+	}
+	return ""
+}
+
+func (x *c05F[P, F, S]) mkShare(id sharing.ID, vals []S) (*kw.Share[S], error) {
+	if x.shObj != nil {
+		return x.shObj, nil
+	}
+	return kw.NewShare(id, vals...)
+}
+
 // buildVV wraps points into a VerificationVector without the MSP length check.
 func (x *c05F[P, F, S]) buildVV(pts []P) (*feldman.VerificationVector[P, S], error) {
+	if x.obj != nil {
+		return x.obj, nil
+	}
 	mod, err := mat.NewModuleValuedColumnVectorModule(uint(len(pts)), algebra.FiniteModule[P, S](x.group))
 	if err != nil {
 		return nil, err
@@ -67,7 +91,7 @@ func (x *c05F[P, F, S]) verify(kind string, sch *feldman.Scheme[P, S], M *c05Msp
 		if err != nil {
 			return "reject"
 		}
-		sh, err := kw.NewShare(id, vals...)
+		sh, err := x.mkShare(id, vals)
 		if err != nil {
 			return "reject"
 		}
@@ -76,8 +100,8 @@ func (x *c05F[P, F, S]) verify(kind string, sch *feldman.Scheme[P, S], M *c05Msp
 		}
 		return "accept"
 	})
-	x.c.Count("fverify." + kind + "." + res)
-	x.c.Emit(fmt.Sprintf("fverify %s %s %s %s %d %s", kind, x.pre(M), pointsStr(vv.pts), scalarsHex(vv.dl), id, scalarsHex(vals)), res)
+	x.c.Count("fverify" + x.tag() + "." + kind + "." + res)
+	x.c.Emit(fmt.Sprintf("fverify%s %s %s %s %s %d %s", x.tag(), kind, x.pre(M), pointsStr(vv.pts), scalarsHex(vv.dl), id, scalarsHex(vals)), res)
 	return res
 }
 
@@ -208,8 +232,8 @@ func (x *c05F[P, F, S]) recExp(d *c05Dealing[P, S], ids []sharing.ID) {
 		}
 		return pointStr(sec.Value())
 	})
-	x.c.Count("frecexp." + map[bool]string{true: "reject", false: "point"}[res == "reject"])
-	x.c.Emit(fmt.Sprintf("frecexp %s %s %s", x.pre(x.M), pointsStr(d.vv.pts), c05idsStr(ids)), res)
+	x.c.Count("frecexp" + x.tag() + "." + map[bool]string{true: "reject", false: "point"}[res == "reject"])
+	x.c.Emit(fmt.Sprintf("frecexp%s %s %s %s", x.tag(), x.pre(x.M), pointsStr(d.vv.pts), c05idsStr(ids)), res)
 }
 
 // recVer: ReconstructAndVerify on the given (possibly tampered) shares.
@@ -237,8 +261,8 @@ func (x *c05F[P, F, S]) recVer(kind string, d *c05Dealing[P, S], shares map[shar
 		}
 		return "ok:" + scalarHex(sec.Value())
 	})
-	x.c.Count("frecver." + kind + "." + strings.SplitN(res, ":", 2)[0])
-	x.c.Emit(fmt.Sprintf("frecver %s %s %s %s", kind, x.pre(x.M), pointsStr(d.vv.pts), strings.Join(parts, ";")), res)
+	x.c.Count("frecver" + x.tag() + "." + kind + "." + strings.SplitN(res, ":", 2)[0])
+	x.c.Emit(fmt.Sprintf("frecver%s %s %s %s %s", x.tag(), kind, x.pre(x.M), pointsStr(d.vv.pts), strings.Join(parts, ";")), res)
 }
 
 // shard: mpc.NewBaseShard(share, V, MSP) — share must be consistent with the public material.
@@ -248,7 +272,7 @@ func (x *c05F[P, F, S]) shard(kind string, vv c05VV[P, S], id sharing.ID, vals [
 		if err != nil {
 			return "reject"
 		}
-		sh, err := kw.NewShare(id, vals...)
+		sh, err := x.mkShare(id, vals)
 		if err != nil {
 			return "reject"
 		}
@@ -267,8 +291,8 @@ func (x *c05F[P, F, S]) shard(kind string, vv c05VV[P, S], id sharing.ID, vals [
 		}
 		return "ok:" + pointStr(bs.PublicKeyValue()) + "|" + strings.Join(parts, ";")
 	})
-	x.c.Count("fshard." + kind + "." + strings.SplitN(res, ":", 2)[0])
-	x.c.Emit(fmt.Sprintf("fshard %s %s %s %d %s", kind, x.pre(x.M), pointsStr(vv.pts), id, scalarsHex(vals)), res)
+	x.c.Count("fshard" + x.tag() + "." + kind + "." + strings.SplitN(res, ":", 2)[0])
+	x.c.Emit(fmt.Sprintf("fshard%s %s %s %s %d %s", x.tag(), kind, x.pre(x.M), pointsStr(vv.pts), id, scalarsHex(vals)), res)
 }
 
 // newVV: the length check of NewVerificationVector against the MSP.
@@ -631,6 +655,8 @@ func c05Feldman[P curves.Point[P, F, S], F algebra.FiniteFieldElement[F], S alge
 			x.shard("vv-entry", tv, id, d.shares[id].Value())
 		}
 	}
+	// 12. the same with objects that are used, changed in place and used again (c05_reuse.go)
+	x.reuse(d, qual)
 }
 
 func make0[S algebra.PrimeFieldElement[S]](f algebra.PrimeField[S], n int) []S {
